@@ -959,3 +959,294 @@ Proof.
   - intros s Hin. destruct (Hret s Hin) as [h [Hh [Hsid [_ [Hseq _]]]]]. exists h. split; [|split; assumption].
     unfold retained_in_commit_order. apply filter_In. split; [exact Hh|]. apply memZ_In. rewrite Hsid. unfold sids. apply in_map. exact Hin.
 Qed.
+
+(* ================================================================== Part 4: C09 lookups *)
+Lemma memZ_filter_ne : forall x id l,
+  memZ x (map sid (filter (fun s => negb (sid s =? id)) l)) = memZ x (map sid l) && negb (x =? id).
+Proof.
+  intros x id l. destruct (memZ x (map sid (filter (fun s => negb (sid s =? id)) l))) eqn:E.
+  - apply memZ_In in E. apply in_map_iff in E. destruct E as [s [Hs Hin]]. apply filter_In in Hin. destruct Hin as [Hin Hq].
+    symmetry. apply andb_true_iff. split; [apply memZ_In; apply in_map_iff; exists s; tauto|]. rewrite <- Hs. exact Hq.
+  - symmetry. apply andb_false_iff. destruct (Z.eqb_spec x id) as [->|Hne]; [right; reflexivity|]. left.
+    apply memZ_false. intro Hin. apply memZ_false in E. apply E. apply in_map_iff in Hin. destruct Hin as [s [Hs Hin]].
+    apply in_map_iff. exists s. split; [exact Hs|]. apply filter_In. split; [exact Hin|]. rewrite Hs. apply negb_true_iff. apply Z.eqb_neq. exact Hne.
+Qed.
+
+Lemma last_opt_snoc : forall (A : Type) (l : list A) x, last_opt (l ++ [x]) = Some x.
+Proof. intros. unfold last_opt. rewrite rev_app_distr. reflexivity. Qed.
+
+Lemma last_opt_nil : forall (A : Type), @last_opt A [] = None.
+Proof. reflexivity. Qed.
+
+(* deleting the current snapshot repoints the table to the most recently committed survivor *)
+Lemma delete_current_core : forall H m id, Core H m -> cur m = Some id -> In id (sids m) ->
+  exists m', delete_snapshot m id = Some m' /\
+    cur m' = option_map sid (last_opt (filter (fun h => memZ (sid h) (sids m) && negb (sid h =? id)) H)).
+Proof.
+  intros H m id C Hc Hin.
+  destruct (remove_first_some id (snaps m) Hin) as [rest E].
+  destruct (delete_snapshot_cases m id) as [[_ Hn]|[rest' [E' Hd]]]; [contradiction|].
+  rewrite E in E'. inversion E'; subst rest'. clear E'.
+  assert (Heq : opt_eqb (cur m) (Some id) = true) by (apply opt_eqb_eq; exact Hc).
+  rewrite Heq in Hd. eexists. split; [exact Hd|]. simpl.
+  destruct (delete_core H m id rest C E) as [C1 Hrest].
+  set (m1 := delete_pruned m id rest) in *.
+  assert (Hs1 : sids m1 = map sid rest) by (unfold m1, delete_pruned; apply prune_sids).
+  set (L := filter (fun h => memZ (sid h) (sids m) && negb (sid h =? id)) H).
+  assert (HL : retained_in_commit_order H m1 = L).
+  { unfold retained_in_commit_order, L. apply filter_ext. intros h. rewrite Hs1, Hrest. apply memZ_filter_ne. }
+  pose proof (c_slog _ _ C1) as Hsl. unfold slog_ok in Hsl. rewrite HL in Hsl.
+  unfold most_recent. destruct (snaps m1) as [|s0 rs] eqn:Es.
+  - assert (HLn : L = []).
+    { rewrite <- HL. unfold retained_in_commit_order. unfold sids. rewrite Es. simpl.
+      clear. induction H as [|h H IH]; simpl; [reflexivity|exact IH]. }
+    rewrite HLn. reflexivity.
+  - destruct (exists_last (l := L)) as [L' [hl HL']].
+    { intro HLn. destruct (c_ret _ _ C1) as [_ Hr]. destruct (Hr s0) as [h [Hh [Hsid _]]]; [rewrite Es; left; reflexivity|].
+      assert (Hin' : In h (retained_in_commit_order H m1)).
+      { unfold retained_in_commit_order. apply filter_In. split; [exact Hh|]. apply memZ_In. rewrite Hsid. unfold sids. rewrite Es. left. reflexivity. }
+      rewrite HL, HLn in Hin'. destruct Hin'. }
+    rewrite Hsl, HL', map_app, rev_app_distr. simpl.
+    assert (Hm : memZ (sid hl) (sids m1) = true).
+    { assert (Hin' : In hl (retained_in_commit_order H m1)) by (rewrite HL, HL'; apply in_or_app; right; left; reflexivity).
+      unfold retained_in_commit_order in Hin'. apply filter_In in Hin'. tauto. }
+    rewrite Hm. rewrite last_opt_snoc. reflexivity.
+Qed.
+
+Theorem delete_current_most_recent : forall t0 f0 ops id, fresh_ops f0 ops ->
+  cur (md (replay t0 f0 ops)) = Some id -> In id (sids (md (replay t0 f0 ops))) ->
+  exists m', delete_snapshot (md (replay t0 f0 ops)) id = Some m' /\
+    cur m' = option_map sid (last_opt (filter (fun h => memZ (sid h) (sids (md (replay t0 f0 ops))) && negb (sid h =? id))
+                                              (hist_of t0 f0 ops))).
+Proof.
+  intros t0 f0 ops id Hf. pose proof (grun_inv t0 f0 ops Hf) as I. rewrite <- grun_fst.
+  unfold hist_of, ghost_of. apply delete_current_core. apply (i_core _ _ _ I).
+Qed.
+
+(* ------------------------------------------------------------------ by-timestamp under non-decreasing timestamps *)
+Definition pair_of (s : snap) : Z * Z := (ts s, sid s).
+
+(* the snapshots list is in snapshot-log order *)
+Definition ordered (m : meta) : Prop := map pair_of (snaps m) = slog m.
+
+Lemma sorted_le_map_filter : forall (A : Type) (f : A -> Z) (P : A -> bool) (l : list A),
+  StronglySorted Z.le (map f l) -> StronglySorted Z.le (map f (filter P l)).
+Proof.
+  intros A f P l. induction l as [|x l IH]; simpl; intros H; [constructor|].
+  inversion H; subst. destruct (P x); simpl; [|apply IH; assumption].
+  constructor; [apply IH; assumption|].
+  apply Forall_forall. intros y Hy. apply in_map_iff in Hy. destruct Hy as [z [<- Hz]].
+  rewrite Forall_forall in H3. apply H3. apply in_map. eapply filter_In_sub. exact Hz.
+Qed.
+
+Lemma ts_sorted_of_map : forall l, StronglySorted Z.le (map ts l) -> ts_sorted l.
+Proof.
+  intros l. induction l as [|x l IH]; simpl; intros H; [constructor|].
+  inversion H; subst. constructor; [apply IH; assumption|].
+  apply Forall_forall. intros y Hy. rewrite Forall_forall in H3. apply H3. apply in_map. exact Hy.
+Qed.
+
+Lemma snaps_ts_sorted : forall H m, Core H m -> ordered m -> StronglySorted Z.le (map ts H) -> ts_sorted (snaps m).
+Proof.
+  intros H m C Ho Hs. apply ts_sorted_of_map.
+  assert (Hm : map ts (snaps m) = map ts (retained_in_commit_order H m)).
+  { transitivity (map fst (map pair_of (snaps m))); [rewrite map_map; reflexivity|].
+    rewrite Ho, (c_slog _ _ C), map_map. reflexivity. }
+  rewrite Hm. apply sorted_le_map_filter. exact Hs.
+Qed.
+
+Lemma repoint_all_pairs : forall all kept, map pair_of (repoint_all all kept) = map pair_of kept.
+Proof. intros. unfold repoint_all. rewrite map_map. apply map_ext. reflexivity. Qed.
+
+Lemma prune_ordered : forall m c kept P, ordered m -> kept = filter (fun s => P (sid s)) (snaps m) ->
+  ordered (prune_with m c kept P).
+Proof.
+  intros m c kept P Ho Hk. unfold ordered, prune_with, with_snaps in *. simpl.
+  rewrite repoint_all_pairs, <- Ho, filter_map_comm, Hk. reflexivity.
+Qed.
+
+Lemma filter_by_kept_ids : forall (Q : snap -> bool) l, NoDup (map sid l) ->
+  filter Q l = filter (fun s => memZ (sid s) (map sid (filter Q l))) l.
+Proof.
+  intros Q l Hnd. apply filter_ext_in. intros s Hs. destruct (Q s) eqn:EQ.
+  - symmetry. apply memZ_In. apply in_map. apply filter_In. split; assumption.
+  - symmetry. apply memZ_false. intro Hin. apply in_map_iff in Hin. destruct Hin as [s' [Hsid Hin']].
+    apply filter_In in Hin'. destruct Hin' as [Hin' HQ'].
+    assert (s' = s) by (eapply NoDup_map_inj_in; eassumption). subst. congruence.
+Qed.
+
+Lemma expire_ordered : forall H c m, Core H m -> ordered m -> ordered (expire c m).
+Proof.
+  intros H c m C Ho. rewrite expire_as_prune. apply prune_ordered; [exact Ho|].
+  apply filter_by_kept_ids. apply (c_ret _ _ C).
+Qed.
+
+Lemma retention_ordered : forall H m, Core H m -> ordered m -> StronglySorted Z.le (map ts H) -> ordered (apply_retention m).
+Proof.
+  intros H m C Ho Hs. destruct (apply_retention_cases m) as [->|[n [_ [_ ->]]]]; [exact Ho|].
+  apply prune_ordered; [exact Ho|]. unfold ret_surviving, ret_kept_ids.
+  rewrite (sort_ts_sorted_id (snaps m) (snaps_ts_sorted H m C Ho Hs)). reflexivity.
+Qed.
+
+Lemma delete_ordered : forall H m id m', Core H m -> ordered m -> delete_snapshot m id = Some m' -> ordered m'.
+Proof.
+  intros H m id m' C Ho Hd. destruct (delete_snapshot_cases m id) as [[Hn _]|[rest [E Hd']]]; [congruence|].
+  rewrite Hd' in Hd. inversion Hd; subst. clear Hd Hd'.
+  destruct (delete_core H m id rest C E) as [_ Hrest].
+  assert (Ho1 : ordered (delete_pruned m id rest)) by (unfold delete_pruned; apply prune_ordered; [exact Ho|exact Hrest]).
+  destruct (opt_eqb (cur m) (Some id)); exact Ho1.
+Qed.
+
+Record OInv (tss : list Z) (st : state) (g : ghost) : Prop := {
+  o_ord : ordered (md st);
+  o_ts : StronglySorted Z.le (map ts (hist g));
+  o_used : incl (map ts (hist g)) tss
+}.
+
+Lemma ordered_ext : forall m m', snaps m = snaps m' -> slog m = slog m' -> ordered m -> ordered m'.
+Proof. intros m m' Hs Hl H. unfold ordered in *. rewrite <- Hs, <- Hl. exact H. Qed.
+
+Lemma gstep_oinv : forall ids tss st g o, Inv ids st g -> OInv tss st g ->
+  (forall i, In i (op_ids o) -> 0 < i /\ ~ In i ids) ->
+  (forall t, In t (op_ts o) -> forall x, In x tss -> x <= t) ->
+  OInv (tss ++ op_ts o) (fst (gstep (st, g) o)) (snd (gstep (st, g) o)).
+Proof.
+  intros ids tss st g o I O Hfr Hts.
+  assert (Hkeep : forall st' g', hist g' = hist g -> ordered (md st') -> OInv (tss ++ op_ts o) st' g').
+  { intros st' g' Hh Ho. constructor; [exact Ho|rewrite Hh; apply (o_ts _ _ _ O)|].
+    rewrite Hh. intros x Hx. apply in_or_app. left. apply (o_used _ _ _ O). exact Hx. }
+  destruct o as [ops id t tu f|id tu f|v tu f|v tu f]; unfold gstep.
+  - destruct (Hfr id (or_introl eq_refl)) as [Hpos Hnew].
+    destruct (step_full_txn st ops id t tu f) as [[_ ->]|[->| ->]].
+    + simpl. apply Hkeep; [reflexivity|apply (o_ord _ _ _ O)].
+    + unfold txn_metaonly. simpl. apply Hkeep; [reflexivity|].
+      eapply ordered_ext with (m := match tx_expire ops with Some c => expire c (md st) | None => md st end); try reflexivity.
+      destruct (tx_expire ops) as [c|]; [eapply expire_ordered; [apply (i_core _ _ _ I)|apply (o_ord _ _ _ O)]|apply (o_ord _ _ _ O)].
+    + unfold txn_fileops.
+      destruct (fileops_inv ids st g id t tu f (tx_adds ops) (tx_dels ops) (tx_expire ops) I Hpos Hnew) as [base [m' [Hb [Hcs _]]]].
+      rewrite Hb. cbv zeta. rewrite Hcs. simpl.
+      set (ml := apply_deletes (tx_dels ops) base ++ append_manifest id (last_seq (md st) + 1) (tx_adds ops)) in *.
+      set (s := new_snap (md st) id t ml) in *.
+      assert (Hf : ~ In id (map sid (hist g))) by (intro Hin; apply Hnew; apply (i_used _ _ _ I); exact Hin).
+      destruct (add_snapshot_core (hist g) (md st) id t ml (i_core _ _ _ I) (i_cur _ _ _ I) Hpos Hf) as [C1 Hc1].
+      fold s in C1, Hc1.
+      assert (Hs' : StronglySorted Z.le (map ts (hist g ++ [s]))).
+      { rewrite map_app. simpl. apply StronglySorted_snoc; [apply (o_ts _ _ _ O)|].
+        apply Forall_forall. intros x Hx. apply (Hts t (or_introl eq_refl)). apply (o_used _ _ _ O). exact Hx. }
+      assert (Ho1 : ordered (add_snapshot (md st) s)).
+      { unfold ordered, add_snapshot. simpl. rewrite map_app. simpl. rewrite (o_ord _ _ _ O). reflexivity. }
+      unfold create_snapshot in Hcs. fold s in Hcs.
+      destruct (existsb _ _) in Hcs; [|discriminate]. inversion Hcs; subst m'. clear Hcs.
+      constructor; simpl.
+      * eapply ordered_ext with (m := apply_retention (match tx_expire ops with Some c => expire c (add_snapshot (md st) s) | None => add_snapshot (md st) s end)); try reflexivity.
+        destruct (tx_expire ops) as [c|].
+        -- destruct (expire_core _ c _ C1 Hc1) as [C2 _].
+           eapply retention_ordered; [exact C2|eapply expire_ordered; [exact C1|exact Ho1]|exact Hs'].
+        -- eapply retention_ordered; [exact C1|exact Ho1|exact Hs'].
+      * exact Hs'.
+      * rewrite map_app. simpl. intros x Hx. apply in_app_or in Hx. apply in_or_app.
+        destruct Hx as [Hx|Hx]; [left; apply (o_used _ _ _ O); exact Hx|right; exact Hx].
+  - unfold step_full. destruct (delete_snapshot (md st) id) as [m'|] eqn:Ed; simpl.
+    + apply Hkeep; [reflexivity|]. eapply ordered_ext with (m := m'); try reflexivity.
+      eapply delete_ordered; [apply (i_core _ _ _ I)|apply (o_ord _ _ _ O)|exact Ed].
+    + apply Hkeep; [reflexivity|apply (o_ord _ _ _ O)].
+  - unfold step_full. simpl. apply Hkeep; [reflexivity|]. eapply ordered_ext with (m := md st); try reflexivity. apply (o_ord _ _ _ O).
+  - unfold step_full. simpl. apply Hkeep; [reflexivity|]. eapply ordered_ext with (m := md st); try reflexivity. apply (o_ord _ _ _ O).
+Qed.
+
+Lemma sorted_le_snoc_inv : forall l t, StronglySorted Z.le (l ++ [t]) -> StronglySorted Z.le l /\ forall x, In x l -> x <= t.
+Proof.
+  intros l t. induction l as [|a l IH]; simpl; intros H; [split; [constructor|intros x []]|].
+  inversion H; subst. destruct (IH H2) as [Hs Hle]. split.
+  - constructor; [exact Hs|]. apply Forall_forall. intros y Hy. rewrite Forall_forall in H3. apply H3. apply in_or_app. left. exact Hy.
+  - intros x [<-|Hx]; [|apply Hle; exact Hx]. rewrite Forall_forall in H3. apply H3. apply in_or_app. right. left. reflexivity.
+Qed.
+
+Lemma nondecreasing_snoc : forall ops o, nondecreasing_ts (ops ++ [o]) ->
+  nondecreasing_ts ops /\ (forall t, In t (op_ts o) -> forall x, In x (flat_map op_ts ops) -> x <= t).
+Proof.
+  intros ops o H. unfold nondecreasing_ts in *. rewrite flat_map_app in H. simpl in H. rewrite app_nil_r in H.
+  destruct o as [tops id t tu f|id tu f|v tu f|v tu f]; simpl in *; try (rewrite app_nil_r in H; split; [exact H|intros t []]).
+  destruct (sorted_le_snoc_inv _ _ H) as [Hs Hle]. split; [exact Hs|]. intros t' [<-|[]] x Hx. apply Hle. exact Hx.
+Qed.
+
+Theorem grun_oinv : forall t0 f0 ops, fresh_ops f0 ops -> nondecreasing_ts ops ->
+  OInv (flat_map op_ts ops) (fst (grun (ginit t0 f0) ops)) (snd (grun (ginit t0 f0) ops)).
+Proof.
+  intros t0 f0 ops. induction ops as [|o ops IH] using rev_ind; intros Hf Hn.
+  - simpl. constructor; simpl; [reflexivity|constructor|intros x []].
+  - apply nondecreasing_snoc in Hn. destruct Hn as [Hn Hts].
+    pose proof (grun_inv t0 f0 ops (proj1 (fresh_ops_snoc _ _ _ Hf))) as I.
+    apply fresh_ops_snoc in Hf. destruct Hf as [Hf [Hids _]].
+    rewrite grun_snoc, flat_map_app. simpl flat_map. rewrite app_nil_r.
+    destruct (grun (ginit t0 f0) ops) as [st g] eqn:E. simpl in IH, I.
+    apply (gstep_oinv _ _ st g o I (IH Hf Hn) Hids Hts).
+Qed.
+
+Lemma last_opt_cons : forall (A : Type) (x : A) l,
+  last_opt (x :: l) = match last_opt l with Some s => Some s | None => Some x end.
+Proof. intros A x l. unfold last_opt. simpl. destruct (rev l); reflexivity. Qed.
+
+Lemma last_opt_map : forall (A B : Type) (f : A -> B) l, last_opt (map f l) = option_map f (last_opt l).
+Proof. intros A B f l. unfold last_opt. rewrite <- map_rev. destruct (rev l); reflexivity. Qed.
+
+Lemma scan_upto_sorted : forall t l, ts_sorted l -> forall acc,
+  scan_upto t l acc = match last_opt (filter (fun s => ts s <=? t) l) with Some s => Some s | None => acc end.
+Proof.
+  intros t l H. induction H as [|x l Hs IH Hall]; intros acc; [reflexivity|].
+  simpl. destruct (Z.leb_spec (ts x) t) as [Hle|Hgt].
+  - rewrite IH, last_opt_cons. destruct (last_opt (filter (fun s => ts s <=? t) l)); reflexivity.
+  - assert (Hnil : filter (fun s => ts s <=? t) l = []).
+    { clear IH Hs. induction l as [|y l IHl]; [reflexivity|]. inversion Hall; subst. simpl.
+      destruct (Z.leb_spec (ts y) t); [lia|]. apply IHl. assumption. }
+    rewrite Hnil. reflexivity.
+Qed.
+
+Lemma filter_filter_andb : forall (A : Type) (P Q : A -> bool) l, filter P (filter Q l) = filter (fun x => Q x && P x) l.
+Proof.
+  intros A P Q l. induction l as [|x l IH]; simpl; [reflexivity|].
+  destruct (Q x); simpl; [destruct (P x); rewrite IH; reflexivity|exact IH].
+Qed.
+
+Lemma last_upto_pairs : forall t l,
+  option_map sid (last_opt (filter (fun s => ts s <=? t) l)) =
+  option_map snd (last_opt (filter (fun p => fst p <=? t) (map pair_of l))).
+Proof.
+  intros t l. rewrite filter_map_comm, last_opt_map. simpl.
+  destruct (last_opt (filter (fun x => ts x <=? t) l)); reflexivity.
+Qed.
+
+Lemma by_timestamp_core : forall H m t, Core H m -> ordered m -> StronglySorted Z.le (map ts H) ->
+  option_map sid (by_timestamp m t) =
+  option_map sid (last_opt (filter (fun h => memZ (sid h) (sids m) && (ts h <=? t)) H)).
+Proof.
+  intros H m t C Ho Hs. unfold by_timestamp.
+  pose proof (snaps_ts_sorted H m C Ho Hs) as Hsorted.
+  rewrite (sort_ts_sorted_id _ Hsorted), (scan_upto_sorted t _ Hsorted None).
+  transitivity (option_map sid (last_opt (filter (fun s => ts s <=? t) (snaps m)))).
+  { destruct (last_opt (filter (fun s => ts s <=? t) (snaps m))); reflexivity. }
+  rewrite <- filter_filter_andb. fold (retained_in_commit_order H m).
+  rewrite !last_upto_pairs. f_equal. f_equal. f_equal.
+  rewrite Ho, (c_slog _ _ C). reflexivity.
+Qed.
+
+(* with a stable sort and non-decreasing commit timestamps, lookup by timestamp returns the most recently
+   committed retained snapshot not newer than t *)
+Theorem by_timestamp_most_recent : forall t0 f0 ops t, fresh_ops f0 ops -> nondecreasing_ts ops ->
+  option_map sid (by_timestamp (md (replay t0 f0 ops)) t) =
+  option_map sid (last_opt (filter (fun h => memZ (sid h) (sids (md (replay t0 f0 ops))) && (ts h <=? t)) (hist_of t0 f0 ops))).
+Proof.
+  intros t0 f0 ops t Hf Hn. pose proof (grun_inv t0 f0 ops Hf) as I. pose proof (grun_oinv t0 f0 ops Hf Hn) as O.
+  rewrite <- grun_fst. unfold hist_of, ghost_of.
+  apply by_timestamp_core; [apply (i_core _ _ _ I)|apply (o_ord _ _ _ O)|apply (o_ts _ _ _ O)].
+Qed.
+
+(* lookup by id returns the retained snapshot with that id, which is the committed one but for its parent link *)
+Theorem by_id_retained : forall t0 f0 ops id s, fresh_ops f0 ops ->
+  by_id (md (replay t0 f0 ops)) id = Some s ->
+  In s (snaps (md (replay t0 f0 ops))) /\ sid s = id /\ exists h, In h (hist_of t0 f0 ops) /\ same_but_parent h s.
+Proof.
+  intros t0 f0 ops id s Hf Hb. unfold by_id in Hb. apply find_some in Hb. destruct Hb as [Hin He]. apply Z.eqb_eq in He.
+  split; [exact Hin|]. split; [exact He|].
+  pose proof (wf_invariant t0 f0 ops Hf) as [_ [_ [[_ Hr] _]]]. apply Hr. exact Hin.
+Qed.
